@@ -1,9 +1,11 @@
 """C05 — propagation conserves energy.
 
-Tie: Model/Energy.lean (`propagateWindow` = the field propagate_dft evaluates on a window for untilted fields, `fftPath` =
-fftshift∘fft2(ortho)∘ifftshift with the NumPy index maps as contracts, `intensity`, `normalizePower`) on top of
-Model/Fourier.lean's `dft2`; run at complex doubles (ops c05.window / c05.fft / c05.normalize) against the real
-lentil.propagate_dft / propagate_fft / Wavefront.intensity / util.normalize_power on commensurate samplings.
+Tie: the propagators are the C02 model (`propagateField`, window kernel regenerated; driver op c02.propagate_dft) and the C09 model
+(`propagateFft`; driver op c09.propagate_fft), `normalize_power` is Model/Energy.lean `normalizePower` (factor regenerated; driver op
+c05.normalize); run at complex doubles against the real lentil.propagate_dft / propagate_fft / Wavefront.intensity /
+util.normalize_power on commensurate samplings. C05 has no hand model of a propagator of its own: the theorems of Props/C05 are about
+those models (`propagateWindow` in Lemmas/Energy.lean is a proof device defining the plane function `fieldAt`, to which the C02
+model's samples are proved equal).
 Oracle: Σ intensity vs Σ|input field|² on the real code, window nesting, non-negativity, normalised power."""
 import numpy as np
 import vlib
@@ -13,15 +15,14 @@ LEVEL_TEXT = ('Lean 4 theorems at ℂ/ℝ, stated over the C02 propagation model
               'the dft2 model tied to fourier.py by the regenerated wiring: the fields propagate_dft produces are samples of one function of '
               'the integer frequency coordinate; for any number of fields on the wavefront canvas, any output extent / mask box / '
               'propagation shape and any set of output samples inside one period (α = 1/K, 1/L, K, L ≥ canvas, K ≠ L allowed) the summed '
-              'intensity is ≤ Σ|total input field|², with equality over the whole period; nested sample sets are monotone; intensity ≥ 0; a '
-              'tilted field, several fields sharing one tilt, or fields with different tilts (against the power of the coherently summed ramped inputs) keep their energy over a covered period; fftshift∘fft2(ortho)∘ifftshift equals the centred unitary dft2 for '
-              'even and odd sizes, and — composed with C09 fft_eq_propagate_dft — the whole FFT propagator (grid shape, padding or scratch, crop; any number of '
+              'intensity is ≤ Σ|total input field|², with equality over the whole period; for two calls with nested evaluated windows the first call\'s energy over any sample set is ≤ the second\'s (propagate_dft_nested_windows), nested sample sets of one call are monotone; intensity ≥ 0; a '
+              'tilted field, several fields sharing one tilt, or fields with different tilts (against the power of the coherently summed ramped inputs) keep their energy over a covered period; '
+              'through C09 fft_eq_propagate_dft (which contains fftshift∘fft2(ortho)∘ifftshift = centred unitary dft2, C09 fft_path_is_unitary_dft_complex — cited, not restated here) the whole FFT propagator (grid shape, padding or scratch, crop; any number of '
               'fields, isotropic sampling) returns at most the input power and exactly it on the full grid; normalize_power (factor regenerated from util.py) '
-              'yields power p at every input scale, and a pupil images to its amplitude·mask power (through C07 Plane.multiply). The propagate_dft correspondence runs the C02 model itself (Gen.dftWindow, Gen.maskShape/Shift, dftAlpha) '
+              'yields power p ≥ 0 for every input of non-zero power at every input scale, a pupil images to its amplitude·mask power (through C07 Plane.multiply), and as one statement a pupil whose amplitude is normalize_power(a, p) images to total exactly p (normalized_pupil_images_to_p: monolithic mask, propagate_dft, full period). The propagate_dft correspondence runs the C02 model itself (Gen.dftWindow, Gen.maskShape/Shift, dftAlpha) '
               'at doubles, the propagate_fft correspondence runs the C09 model propagateFft (generated grid shape, guards, scratch regions); normalize_power runs Model/Energy.lean.')
-LEVEL_NOTE = ('Trusted, stated plainly: the fft2 contract `fft2ortho` is written with the model\'s own dft2 (offset ⌊n/2⌋, shift −⌊n/2⌋ '
-              'cancelling the centring) and proved equal to the textbook (1/√(mn)) Σ x[a,b] e^{−2πi(ak/m+bl/n)}; that NumPy\'s '
-              'fft2(norm="ortho") computes that sum, and that fftshift/ifftshift are the stated index maps, is assumed and only observed '
+LEVEL_NOTE = ('Trusted, stated plainly: the FFT clauses rest on C09\'s model of _fft2 (generated index maps, fft2 contract): that NumPy\'s '
+              'fft2(norm="ortho") computes the unitary DFT sum, and that fftshift/ifftshift are the stated index maps, is assumed there and only observed '
               'differentially. Wavefront.intensity = |Wavefront.field|² and reduce keeping the total are C07/C06 theorems, cited not '
               'restated; for differently tilted fields the reference power is that of the coherent sum of the ramped inputs (multi_tilt_period_energy). np.dot/np.exp as in C01; floating-point rounding is not modelled.')
 TECHNIQUE = 'Lean 4 proof (roots-of-unity orthogonality, Finset sums) over a generic executable model + differential correspondence'
@@ -34,16 +35,17 @@ RULE = ('cases: wavefronts of shape 1..5 x 1..5 (one full field, or 2-3 sub-fiel
         'arrays and of pupil amplitudes that are then imaged. distinct = (kind, field shapes/offsets, K, L, os, windows); '
         'non-trivial = not (square, isotropic, single field) i.e. outside what the test-suite samples A ≈5 % sample (search tier: a leading block of 150 + padded FFT grids of 2048², 4096×1024, 1024×4100 checked by their totals) comes from an extremes stream: normalize_power targets within 1e-7 … 3e-5 relative or 1e-8 absolute of the present power at amplitude scales 1e-9 … 1e3, field amplitudes at 1e-9 / 1e9, wavelengths / distances / pixel sizes from 1e-9 to 1e6 with near-equal per-axis dx, 33–47 fields per wavefront; the quick tier runs one 4096×1024 FFT grid; all tolerances are relative to Σ|f_k|² resp. the target power. About 10 % of the cases are segmented pupils (3-D mask, 2-3 disjoint segments) on wider-than-tall and taller-than-wide arrays, amplitude normalised to p, imaged over one period by both propagators and judged against the plane\'s amplitude·mask power (oracle only). One FFT case in six asks for a shape larger than the grid allows or passes a scratch smaller than the grid (both must raise ValueError, as the C09 model does). Overlapping fields with different sub-pixel tilts are generated and judged against the power of the coherently summed ramped inputs; one-sample windows are generated for multi-field wavefronts too.')
 TRUSTED = ['np.fft.fft2(norm="ortho") is the unitary DFT with origin at index 0; np.fft.fftshift / ifftshift follow their documented '
-           'index maps (modelled in Model/Energy.lean, observed through the correspondence)',
+           'index maps (modelled in C09, observed through the c09.propagate_fft correspondence)',
            'np.dot / np.exp / np.abs / np.sum as written in the model; Wavefront.intensity merges coincident output fields (C06)']
-UNPROVEN = ['"images to total p" is proved for a monolithic pupil on the fresh wavefront through propagate_dft (pupil_images_to_amplitude_power); for the FFT '
+UNPROVEN = ['"images to total p" is proved for a monolithic pupil on the fresh wavefront through propagate_dft (normalized_pupil_images_to_p, amplitude vanishing outside the mask); for the FFT '
             'path and for segmented masks it is the composition with propagate_fft_energy / C03 segmented = monolithic, not restated; evaluated by the oracle',
             'Wavefront.insert(out, weight) = out + weight·intensity is evaluated by the oracle only',
             'propagate_fft_energy(_consistent) needs isotropic dx·du or a grid consistent with both samplings (C09: the FFT propagator reports one '
             'wavelength for two grids otherwise — known finding D9)']
 ASSUMPTIONS = ['generator scope: sub-fields are never one element off the origin and pupil supports / segment boxes span more than one pixel — lentil treats a one-element Field as a broadcast constant, not a pixel (C06 documented rule; open known finding KF-C07-one-pixel-segment)',
                'commensurate sampling: 1/α is an integer number of samples per axis, at least the wavefront shape',
-               'sample sets lie inside one period; all fields lie on the wavefront canvas (Fits)']
+               'sample sets lie inside one period; all fields lie on the wavefront canvas (Fits)',
+               'normalize_power: target p ≥ 0 and an input of non-zero, finite power (the code returns nan / inf for a zero-power input and nan for p < 0; the model\'s x/0 = 0 says nothing there) — neither is generated']
 
 TOL = 1e-9
 
